@@ -28,6 +28,9 @@ import (
 var repoPkgs = []string{
 	"channels", "impl", "transport/graphsync", "channelmonitor",
 	"channelsubscriptions", "registry", "transportoptions", "tracing", "network",
+	// no synchronisation today; instrumented so that a change which introduces some (lazy initialisation, pooled
+	// buffers) is explored by the first-use cells of C12
+	"message/message1_1prime",
 }
 
 // files that get statement points (path relative to repo) -> nil = all funcs
